@@ -43,7 +43,7 @@ PROPS['C14'] = A(level='model_checking', harnesses=HM_H, budget=A(quick=150, tho
 
 HOLD_H = [A(src='harness/c17_holders.cpp', san='asan')]
 PROPS['C17'] = A(level='model_checking', harnesses=HOLD_H, budget=A(quick=150, thorough=900),
-    bounds=A(quick='two slots each of optional<int|Tracked|MoveOnly|CopyOnly>, expected<Err,Tracked|int>, variant<Tracked,TrackedB,int>, manual_box<Tracked>; every constructor/assignment/emplace/unwrap/map/apply in every (destination,source) state combination, histories of any length (fixpoint); tuple shapes vs std::tuple; constructor selection of emplace/initialize for 8 argument shapes; expected<E,void>, FRG_TRY, eternal; value-initialisation of scalar/aggregate payloads on re-initialisation',
+    bounds=A(quick='two slots each of optional<int|Tracked|MoveOnly|CopyOnly|Counted (an element with an observable use count)>, expected<Err,Tracked|int>, variant<Tracked,TrackedB,int>, manual_box<Tracked>; every constructor/assignment/emplace/unwrap/map/apply in every (destination,source) state combination, histories of any length (fixpoint); tuple shapes vs std::tuple; constructor selection of emplace/initialize for 8 argument shapes; expected<E,void>, FRG_TRY, eternal; value-initialisation of scalar/aggregate payloads on re-initialisation',
              thorough='same (the spaces are closed completely already)'),
     assumptions=TRUST)
 
@@ -66,8 +66,9 @@ SLAB_H = [A(src='harness/c01_slab.cpp', san='asan', opt='-O2', tag='-p%d' % i, f
 HUGE_H = [A(src='harness/c03_slab_huge.cpp', san='asan', opt='-O2')]
 SLAB_B = A(quick='policy configs: tiny (page 256, slab=sb 4 KiB, 8 classes; aligned map / one-argument map with bases at 3 offsets / no poison hooks), split (slab 2 KiB < sb 4 KiB, aligned and one-argument map), odd (slab 7 pages, sb 8 pages, largest class 2 pages), defaults (4 KiB/256 KiB/13 classes, both map flavours). (a) alloc/free/deallocate/realloc/realloc(null) histories to FIXPOINT (any length) over small size alphabets with <=2..5 live blocks; (b) all histories to depth 5 (4 odd, 3 defaults) over the full 5-7 size alphabets with <=3..4 live blocks; (c) size sweep: every request 0..largest class+2 pages and every size within +-2 of a page multiple up to 3 superblocks+1 page from 3 base states, every realloc pair over the class/page boundaries',
            thorough='same with more fixpoint alphabets at 3 live blocks, depth 7 (6 odd, 5 defaults), sweeps from all base states')
+SLAB_HUGE = A(quick='; (e) requests around 2^31, 2^32, 1.5*2^32 and 2^33 bytes (13 offsets -8192..+8192 each, plus 5 GiB+12345): allocate / second block / free, realloc from 24, 48, 40000 and 300000 patterned bytes up and down again, realloc(null), sized deallocate, x {two-argument map, one-argument map} x {with, without poison hooks}, over an address-space-only policy (212 cases)', thorough='; (e) the same plus 75 sizes around every multiple of 2^31 up to 2^35')
 for pid, extra in (('C01', ''), ('C02', ''), ('C03', '')):
-    PROPS[pid] = A(level='model_checking', technique='explicit-state model checking of the real implementation (BFS over operation histories with state hashing, exhaustive size sweeps) plus stateless model checking of interleaved histories (preemption-bounded schedule enumeration under a serialising scheduler, ThreadSanitizer over the same schedules)', harnesses=SLAB_H + _MT_H + HUGE_H, budget=A(quick=170, thorough=1700), bounds=(A(quick=SLAB_B['quick'] + '; (d) interleaved histories: 4 two/three-thread scripts on one slab under the serialising scheduler, all schedules with <=2 preemptions (H11: 3), ASan+oracles and ThreadSanitizer', thorough=SLAB_B['thorough'] + '; scheduler scripts with <=3 (H11: 4) preemptions') if pid == 'C01' else A(quick=SLAB_B['quick'] + '; (d) the content/footprint (C02) resp. page-accounting/region (C03) oracles over 2-3 scheduler scripts with <=2 preemptions, ASan and ThreadSanitizer', thorough=SLAB_B['thorough'] + '; scheduler scripts with <=3 preemptions')), assumptions=TRUST + ['ASan manual poisoning is conservative at 8-byte granularity'])
+    PROPS[pid] = A(level='model_checking', technique='explicit-state model checking of the real implementation (BFS over operation histories with state hashing, exhaustive size sweeps) plus stateless model checking of interleaved histories (preemption-bounded schedule enumeration under a serialising scheduler, ThreadSanitizer over the same schedules)', harnesses=SLAB_H + _MT_H + HUGE_H, budget=A(quick=170, thorough=1700), bounds=(A(quick=SLAB_B['quick'] + '; (d) interleaved histories: 4 two/three-thread scripts on one slab under the serialising scheduler, all schedules with <=2 preemptions (H11: 3), ASan+oracles and ThreadSanitizer' + SLAB_HUGE['quick'], thorough=SLAB_B['thorough'] + '; scheduler scripts with <=3 (H11: 4) preemptions' + SLAB_HUGE['thorough']) if pid == 'C01' else A(quick=SLAB_B['quick'] + '; (d) the content/footprint (C02) resp. page-accounting/region (C03) oracles over 2-3 scheduler scripts with <=2 preemptions, ASan and ThreadSanitizer' + SLAB_HUGE['quick'], thorough=SLAB_B['thorough'] + '; scheduler scripts with <=3 preemptions' + SLAB_HUGE['thorough'])), assumptions=TRUST + ['ASan manual poisoning is conservative at 8-byte granularity'])
 PROPS['C04'] = A(level='fault_enumeration', harnesses=SLAB_H, budget=A(quick=170, thorough=1700),
     bounds=A(quick='the C01 explorations with one more environment answer: at every op that can call Policy::map, the call is failed (<=1 failure per history), either the first or the second map() call of the operation; every reachable state within the bounds is a failure point; plus the same with the policy freeing a live block of the pool from inside the failing map() call (what a concurrent free during the unlocked map() amounts to)', thorough='<=2 failures per history'),
     rule='cases = (history, failed map call) pairs enumerated by BFS over alloc/realloc ops with a failing-map variant; distinct = distinct canonical states reached; non-trivial = the failing variant actually reached map()',
@@ -75,7 +76,7 @@ PROPS['C04'] = A(level='fault_enumeration', harnesses=SLAB_H, budget=A(quick=170
 
 STR_H = [A(src='harness/c15_strings.cpp', san='asan')]
 PROPS['C15'] = A(level='exploration', engine='enumerate', harnesses=STR_H, budget=A(quick=150, thorough=1200),
-    bounds=A(quick='all 121 strings of length <=4 over {a,b,NUL}: every constructor/copy/assign/swap/resize(0..len+2)/push_back/+=/+ /find_first(all c, all from)/find_last/sub_string(all from,n incl. out of range and SIZE_MAX wrap)/hash; all 14 641 ordered pairs: ==, compare (both overloads), +, +=, starts_with, ends_with, find_first_of; compare transitivity over all triples of strings <=3; to_number<int|unsigned|long|uint64_t|uint8_t> over {0,1,9,a}^<=5 + type maxima; char32_t strings of length 0..5; BFS depth 4 of mutation sequences on two slots',
+    bounds=A(quick='all 121 strings of length <=4 over {a,b,NUL}: every constructor/copy/assign/swap/resize(0..len+2)/push_back/+=/+ /find_first(all c, all from)/find_last/sub_string(all from,n incl. out of range and SIZE_MAX wrap)/hash; all 14 641 ordered pairs: ==, compare (both overloads), +, +=, starts_with, ends_with, find_first_of; compare transitivity over all triples of strings <=3; to_number<int|unsigned|long|uint64_t|uint8_t> over {0,1,9,a}^<=5 + type maxima; char32_t strings of length 0..5; BFS depth 4 of mutation sequences on two slots (+=, push_back, resize, assign, swap, +, move-assign and move-construct from the other slot: the source must stay a well-formed string)',
              thorough='strings of length <=5 (364; 132 496 pairs); triples over length <=4; to_number inputs of length <=6; sequences depth 5'),
     rule='cases = every input of the stated finite domains, enumerated exhaustively (odometer over the alphabet); each is distinct by construction; non-trivial = all of them (every case exercises at least one library call against the std::string reference); source data lives in exact-size buffers ending at a PROT_NONE page, owned data in exact-size ASan heap blocks',
     technique='exhaustive bounded enumeration of all inputs (and BFS over mutation sequences) executed on the real implementation against std::string',
@@ -97,8 +98,8 @@ PROPS['C19'] = A(level='exploration', engine='enumerate', harnesses=[A(src='harn
     assumptions=TRUST + ['glibc snprintf in the C locale as the embodiment of ISO C for the ISO-defined directive space'])
 
 PROPS['C20'] = A(level='exploration', engine='enumerate', harnesses=[A(src='harness/c20_parsers.cpp', san='asan')], budget=A(quick=150, thorough=1500),
-    bounds=A(quick='printf_format+do_printf_*: every string of length <=5 over {%,d,s,c,x,p,l,h,z,*,.,$,0,1,9,-,+,#,space,a} and every string of length <=4 over {%,f,F,e,g,L,j,t,o,u,X,i,b,n,apostrophe,.,*,1,l,h,#} with a hand-built va_list over an exact-size guarded slot array, each once with a universal argument value and once with all-zero slots (null strings, zero widths); 20 classes of floating-point values x 64 flag subsets x widths x precisions through a real variadic call; fmt(): every string <=6 over {{,},:,0,1,9,x,c,h,a} with 0-2 arguments of 4 type lists; parse_arguments: every string <=7 over {space,quote,=,f,o,1,9,x} against 6 option tables; to_number<int|unsigned|long|uint64_t|int8_t|short>: every string <=6 over {0,1,9,-,+,space,a}; plus digit runs of length 7..25 at every numeric position of every grammar and the decimal images of all type limits +-1',
-             thorough='printf <=6, fmt <=8, cmdline <=8, to_number <=8'),
+    bounds=A(quick='printf_format+do_printf_*: every string of length <=5 over {%,d,s,c,x,p,l,h,z,*,.,$,0,1,9,-,+,#,space,a} and every string of length <=4 over {%,f,F,e,g,L,j,t,o,u,X,i,b,n,apostrophe,.,*,1,l,h,#} with a hand-built va_list over an exact-size guarded slot array, each once with a universal argument value and once with all-zero slots (null strings, zero widths); 20 classes of floating-point values x 64 flag subsets x widths x precisions through a real variadic call; fmt(): every string <=6 over {{,},:,0,1,9,x,c,h,a} with 0-2 arguments of 4 type lists; parse_arguments: every string <=7 over {space,quote,=,f,o,1,9,x} against 6 option tables; to_number<int|unsigned|long|uint64_t|int8_t|short>: every string <=6 over {0,1,9,-,+,space,a}; plus digit runs of length 7..25 at every numeric position of every grammar and the decimal images of all type limits +-1; sequences of complete directives: 31 directives (13 plain, 18 with a length modifier hh h l ll z t j L) singly, all 961 ordered pairs and 2400 triples, every argument exactly the object its directive is entitled to (slots ending at a guard page, exactly-sized guarded narrow/wide strings), exact slot consumption',
+             thorough='printf <=6, fmt <=8, cmdline <=8, to_number <=8; all 29791 directive triples'),
     rule='cases = every byte string of the stated alphabets up to the length bound (odometer enumeration), each distinct; non-trivial = all; inputs live in exact-size buffers ending at a PROT_NONE page; oracle = termination, no ASan/UBSan report (signed overflow included), no fault, sink/target canaries intact, va_list cursor within the slots the directives account for; stopping in frg_panic is a legal outcome',
     technique='exhaustive enumeration of all inputs up to a length bound executed on the real parsers under ASan/UBSan with guard pages',
     assumptions=TRUST + ['x86-64 SysV va_list layout'])
